@@ -486,6 +486,18 @@ def gen_pool_history(rng, nops):
                 used[pid] -= live[s][1]; del live[s]
             else:
                 lines.append("%d pmsize %d %d" % (t, pid, rng.choice(mine)))
+            if rng.random() < 0.12:
+                # default-allocator traffic of the same size class on the same thread just before a pool request (the freed block sits in the
+                # DEFAULT pool's per-thread caches; the pool must not hand it out)
+                sz = rng.choice([100, 5000, 9000, 40000, 100000, 300000, (1 << 20) + 1])
+                al = rng.choice([0, 0, 7, 12, 16])
+                lines.append("%d dchurn %d %d %d %d" % (t, pid, nslot, sz, al)); nslot += 1
+                if used[pid] + sz <= cap:
+                    if al:
+                        lines.append("%d pamalloc %d %d %d %d" % (t, pid, nslot, sz, al))
+                    else:
+                        lines.append("%d pmalloc %d %d %d" % (t, pid, nslot, sz))
+                    live[nslot] = (pid, sz); used[pid] += sz; nslot += 1
     return lines, pools, nslot
 
 
@@ -768,6 +780,107 @@ def run_oom(ck, exe, c):
                            "expect": "no-violation"})
 
 
+FIRST_OPS = [("pmalloc", 8, 0), ("pmalloc", 1000, 0), ("pmalloc", 8128, 0), ("pmalloc", 8129, 0), ("pmalloc", 20000, 0), ("pmalloc", 200000, 0),
+             ("pmalloc", (1 << 20) + 1, 0), ("pmalloc", 3000000, 0), ("pamalloc", 100, 7), ("pamalloc", 9000, 12), ("pamalloc", 200000, 16)]
+WINDOWS = [(1, 1), (1, 2), (1, 3), (1, 4), (2, 1), (2, 2), (3, 1), (3, 2)]
+
+
+def first_touch_script(polline, op, k, cnt, warm):
+    """a thread's FIRST operation on a pool (its per-pool TLS does not exist yet) is `op`, while the raw callback refuses calls k..k+cnt-1
+    counted from that moment; `warm`: another thread has used the pool before (k is then relative to the raw calls made so far, found by a dry run)"""
+    name, sz, al = op
+    first = "0 %s 1 %d %d" % (name, 10 if warm else 0, sz) + (" %d" % al if name == "pamalloc" else "")
+    pre = ["P 1", polline]
+    if warm:
+        pre += ["0 pmalloc 1 0 100", "0 pmalloc 1 1 300000", "0 pfree 1 1"]
+    return pre, first
+
+
+def run_first_touch(ck, exe):
+    """fault windows around per-thread bootstrap: the first operation of a (fresh) thread on a pool, of every size class, with the raw
+    callback failing for the 1st..4th request it causes and succeeding afterwards (a failure of the TLS / bootstrap request followed by a
+    successful request for the object itself, and the other way round)"""
+    bad, runs = [], 0
+    pols = ["M pool 1 0 0 0 0 1", "M pool 1 0 0 65536 0 1", "M pool 1 0 1 0 0 1"]
+    quick = ck.tier == "quick"
+    for polline in pols if not quick else pols[:2]:
+        for warm in (False, True):
+            base = 0
+            if warm:
+                pre, _ = first_touch_script(polline, FIRST_OPS[0], 0, 0, True)
+                v, ol = run_lines(exe, pre)
+                rc_ = [l for l in ol if l.startswith("RAWCALLS 1 ")]
+                base = int(rc_[0].split()[2]) if rc_ else 0
+            for op in FIRST_OPS:
+                for (k, cnt) in WINDOWS:
+                    pre, first = first_touch_script(polline, op, k, cnt, warm)
+                    if warm:
+                        lines = pre + ["P 1", "M fail 1 %d %d" % (base + k, cnt), first]
+                    else:
+                        lines = pre + ["M fail 1 %d %d" % (k, cnt), first]
+                    s0 = 10 if warm else 0
+                    lines += ["0 pmalloc 1 %d 100" % (s0 + 1), "0 pmalloc 1 %d 300000" % (s0 + 2), "0 pamalloc 1 %d 5000 8" % (s0 + 3),
+                              "P 1", "M fail 1 0 0", "0 !pmalloc 1 %d 100" % (s0 + 4), "0 !pmalloc 1 %d 200000" % (s0 + 5),
+                              "0 !pamalloc 1 %d 9000 12" % (s0 + 6)]
+                    v, ol = run_lines(exe, lines)
+                    runs += 1
+                    d = [l for l in ol if l.startswith("done")]
+                    ck.count(len(lines), ("first-touch", polline, warm, op[0], op[1], k, cnt, bool(d and "nulls=0" not in d[0])))
+                    if v:
+                        bad.append(("first-touch %s size=%d warm=%s window=(%d,%d)" % (op[0], op[1], warm, k, cnt), lines, v))
+                        break
+                if bad:
+                    break
+            if bad:
+                break
+        if bad:
+            break
+    ck.traces_validated += runs
+    ck.extra["first_touch_runs"] = runs
+    ck.oblige("monitor:first operation of a thread on a pool (every size class, fresh and warm pool) with the raw callback refusing the 1st..4th "
+              "request it causes: failure reported or valid block, no crash, live blocks intact, later success", "correspondence",
+              not bad, [(n, v[:2]) for n, _, v in bad][:2])
+    for name, lines, v in bad[:1]:
+        kind = v[0].split()[1]
+        ck.counterexample("pool:first-touch:%s:%s" % (kind, hashlib.sha1("\n".join(lines).encode()).hexdigest()[:8]), "%s: %s" % (name, v[0]),
+                          {"engine": "E-REAL", "harness": "harness/c18/pools.cpp", "script": lines, "observed": v[:5], "runs": 3, "expect": "no-violation"})
+
+
+def run_first_touch_os(ck, exe):
+    """same for the default pool: a fresh thread's first operation (TLS bootstrap) with mmap refusing the 1st..4th mapping it causes"""
+    bad, runs = [], 0
+    warm = ["P 1", "0 malloc 0 100", "0 malloc 1 300000", "0 free 1"]
+    v, ol = run_lines(exe, warm)
+    mc = [l for l in ol if l.startswith("MMAPCALLS")]
+    base = int(mc[0].split()[1]) if mc else 0
+    ops = [("malloc", 8, 0), ("malloc", 1000, 0), ("malloc", 8129, 0), ("malloc", 20000, 0), ("malloc", 200000, 0), ("malloc", (1 << 20) + 1, 0),
+           ("malloc", 9000000, 0), ("amalloc", 100, 7), ("amalloc", 9000, 12), ("amalloc", 200000, 16), ("calloc", 100, 0)]
+    for op in ops:
+        for (k, cnt) in WINDOWS:
+            name, sz, al = op
+            first = "0 %s 10 " % name + ("3 %d" % sz if name == "calloc" else "%d" % sz) + (" %d" % al if name == "amalloc" else "")
+            lines = warm + ["P 1", "M fail %d %d" % (base + k, cnt), first, "0 malloc 11 100", "0 malloc 12 300000", "0 amalloc 13 5000 8",
+                            "P 1", "M fail 0 0", "0 !malloc 14 100", "0 !malloc 15 200000", "0 !amalloc 16 9000 12"]
+            v, ol = run_lines(exe, lines)
+            runs += 1
+            ck.count(len(lines), ("first-touch-os", op[0], op[1], k, cnt))
+            if v:
+                bad.append(("first-touch-os %s size=%d window=(%d,%d)" % (op[0], op[1], k, cnt), lines, v))
+                break
+        if bad:
+            break
+    ck.traces_validated += runs
+    ck.extra["first_touch_os_runs"] = runs
+    ck.oblige("monitor:first operation of a fresh thread on the default pool (every size class) with mmap refusing the 1st..4th mapping it "
+              "causes: null+ENOMEM or valid block, no crash, live blocks intact, later success", "correspondence", not bad,
+              [(n, v[:2]) for n, _, v in bad][:2])
+    for name, lines, v in bad[:1]:
+        kind = v[0].split()[1]
+        ck.counterexample("os-fault:first-touch:%s:%s" % (kind, hashlib.sha1("\n".join(lines).encode()).hexdigest()[:8]), "%s: %s" % (name, v[0]),
+                          {"engine": "E-REAL", "harness": "harness/c17/real.cpp", "define": "VERIF_OOM", "script": lines, "observed": v[:5], "runs": 3,
+                           "expect": "no-violation"})
+
+
 CXX_KEY = "cxx-allocator-n-times-sizeof-wraps"
 
 
@@ -824,7 +937,9 @@ def run(ck):
     ck.extra["libtbbmalloc"] = libdir
     reset_defect = run_reset_race(ck, pools)
     run_pools(ck, pools, reset_defect)
+    run_first_touch(ck, pools)
     run_oom(ck, oom, c)
+    run_first_touch_os(ck, oom)
     run_cxx(ck, cxx)
 
 
